@@ -96,8 +96,8 @@ func traverseBottomUp(parent *parser.Expr, current *parser.Expr, transform func(
 		}
 		return transform(parent, current)
 	case *parser.Call:
-		for _, n := range node.Args {
-			if stop := traverseBottomUp(current, &n, transform); stop {
+		for i := range node.Args {
+			if stop := traverseBottomUp(current, &node.Args[i], transform); stop {
 				return stop
 			}
 		}
